@@ -32,7 +32,11 @@ def run_tlc(spec, cfg, metadir, env=None, workers=1, extra=None,
             timeout=3600, xmx='2g'):
     """Run TLC on `spec` (module name in SPEC) with config `cfg`."""
     os.makedirs(metadir, exist_ok=True)
-    cmd = _java(xmx=xmx, gcthreads=2 if workers == 1 else None) + [
+    jcmd = _java(xmx=xmx, gcthreads=2 if workers == 1 else None)
+    # TLC unpacks its standard modules into java.io.tmpdir (one /tmp/tlc-* directory per
+    # run, not always removed): keep them inside the run's own scratch directory
+    jcmd.insert(1, '-Djava.io.tmpdir=' + metadir)
+    cmd = jcmd + [
         '-workers', str(workers), '-metadir', metadir,
         '-noGenerateSpecTE', '-config', cfg]
     if extra:
